@@ -32,7 +32,7 @@ def sync_gen(tmp):
 
 
 # Gen files that are still hand-made placeholders (to be emptied as the translator grows)
-HANDMADE_GEN = {"Escapes.lean", "TypeNames.lean", "NodeKinds.lean"}
+HANDMADE_GEN = set()
 
 
 def prepare():
